@@ -212,7 +212,8 @@ def apply_resultpath(input, result, path="$"):
             "The value of \"ResultPath\" MUST NOT begin with \"$$\""
         )
 
-    matches = re.findall(r"[^$.[\]]+", path)  # Regex to split the reference paths
+    # Regex to split the reference paths, the quotes of bracket notation $['key'] are not part of the key
+    matches = re.findall(r"[^$.[\]'\"]+", path)
     # Place a copy, so that a result that is (part of) the input does not make the input contain itself.
     return update_path(input, matches, copy.deepcopy(result))
 
